@@ -21,7 +21,11 @@ class C32(C30):
                    "4 call sites (repeat_with_keys, into_singleton x2, get_max_key) are proved under the keyed-singleton invariant "
                    "(distinct keys), itself proved for the emitted keyed fold / reduce states; other producers of keyed singletons "
                    "(e.g. cast_at_most_one_entry_per_key) are not modelled",
-                   "the hash iteration order of keyed singletons cannot be controlled by the harness"]
+                   "the hash iteration order of keyed singletons cannot be controlled by the harness",
+                   "only call sites inside hydro_lang/src/live_collections/** are scanned; user-level `manual_proof!` obligations are "
+                   "outside this property's list -- e.g. (observation by the Proto engine, C40) the keyed fold in hydro_test paxos "
+                   "`recommit_after_leader_election` is annotated `commutative = manual_proof!(/** TODO */)` and is order dependent "
+                   "when more than f+1 logs arrive: nothing here checks such application-level proofs"]
 
     def flows(self):
         return [f for f in hydro.PERTURB]
